@@ -45,6 +45,41 @@ package orb
 //@   pure
 //@   ensures result == intersects(b, bound)
 
+// ---------------------------------------------------------------- Bound() of the point-sequence kinds
+
+//@ spec allNonan(mp MultiPoint) bool = forall i :: 0 <= i && i < len(mp) ==> nonanP(mp[i])
+//@ spec allIn(r Bound, mp MultiPoint) bool = forall i :: 0 <= i && i < len(mp) ==> contains(r, mp[i])
+//@ spec attained(r Bound, mp MultiPoint) bool = (exists i :: 0 <= i && i < len(mp) && r.Min[0] == mp[i][0]) && (exists i :: 0 <= i && i < len(mp) && r.Min[1] == mp[i][1]) && (exists i :: 0 <= i && i < len(mp) && r.Max[0] == mp[i][0]) && (exists i :: 0 <= i && i < len(mp) && r.Max[1] == mp[i][1])
+//@ spec tightBound(r Bound, mp MultiPoint) bool = ite(len(mp) == 0, same(r, emptyBound), nonanB(r) && allIn(r, mp) && attained(r, mp))
+
+//@ func (MultiPoint).Bound(mp)
+//@   pure
+//@   requires allNonan(mp)
+//@   ensures tightBound(result, mp)
+//@   loop 1: invariant -1 <= rangeindex && rangeindex < len(mp) && nonanB(b)
+//@   loop 1: invariant forall k :: 0 <= k && k <= rangeindex ==> contains(b, mp[k])
+//@   loop 1: invariant contains(b, mp[0])
+//@   loop 1: invariant exists k :: 0 <= k && (k <= rangeindex || k == 0) && b.Min[0] == mp[k][0]
+//@   loop 1: invariant exists k :: 0 <= k && (k <= rangeindex || k == 0) && b.Min[1] == mp[k][1]
+//@   loop 1: invariant exists k :: 0 <= k && (k <= rangeindex || k == 0) && b.Max[0] == mp[k][0]
+//@   loop 1: invariant exists k :: 0 <= k && (k <= rangeindex || k == 0) && b.Max[1] == mp[k][1]
+
+//@ func (LineString).Bound(ls)
+//@   pure
+//@   requires allNonan(ls)
+//@   ensures tightBound(result, ls)
+
+//@ func (Ring).Bound(r)
+//@   pure
+//@   requires allNonan(r)
+//@   ensures tightBound(result, r)
+
+//@ func (Polygon).Bound(p)
+//@   pure
+//@   requires len(p) > 0 ==> allNonan(p[0])
+//@   ensures len(p) == 0 ==> same(result, emptyBound)
+//@   ensures len(p) > 0 ==> tightBound(result, p[0])
+
 // ---------------------------------------------------------------- LineString
 
 //@ func (LineString).Reverse(ls)
